@@ -270,6 +270,7 @@ def run(ctx, model=None):
                 continue
             p = {"seed": 7, "w": w, "l": l, "m": 6, "pr": 0.1, "pl": 0.1, "pt": 0.1, "plo": 0.3, "fd": fd}
             check_params(ctx, p, model if l * w <= 30 else None, solve=False)
+    whatever_is_written_is_proper(ctx)
     boards.generator_environment(ctx, "loadable", [["--seed=2", "--width=2", "--length=2", "--prob_robot_break=0.1043"],
                                                    ["--seed=6", "--width=1", "--length=3", "-f"]])
     # manual entry point
@@ -281,6 +282,26 @@ def run(ctx, model=None):
             # a hand-written board whose rows are tuples (e.g. list(zip(*columns)))
             mv, rw, ls = [tuple(r) for r in mv], [tuple(r) for r in rw], [tuple(r) for r in ls]
         check_manual(ctx, mv, rw, ls, model, L * W > 1)
+
+
+def whatever_is_written_is_proper(ctx):
+    """parameter sets OUTSIDE the documented ranges (non-positive sizes in every sign combination, zero / negative
+    maximum reward): the generator refuses them — and if it ever accepts one, the file it writes must still be a
+    loadable, proper three-game file"""
+    for w, l, m in ((-2, -3, 6), (-1, -1, 6), (-1, 2, 6), (2, -1, 6), (0, 0, 6), (2, 2, 0), (2, 2, -3), (-2, -2, -2)):
+        argv = ["--seed=1", f"--width={w}", f"--length={l}", f"--max_reward={m}"]
+        r = boards.run_generator(argv)
+        inp = {"seed": 1, "w": w, "l": l, "m": m, "outside_documented_ranges": True}
+        ctx.case(inp, True)
+        for name, text in r["files"].items():
+            try:
+                d = load_text(text)
+                ok = isinstance(d, dict) and list(d.keys()) == ["game_a", "game_b", "game_c"] and all([proper(ctx, inp, k, g) for k, g in d.items()])
+            except Exception as e:  # noqa
+                ok = False
+            if not ok:
+                ctx.violation("accepted-implies-proper", inp, {"outcome": r["outcome"], "file": name})
+                return
 
 
 def check_manual(ctx, mv, rw, ls, model=None, nontrivial=True):
@@ -323,6 +344,9 @@ def known_findings(ctx):
 
 def replay(ctx, viol):
     i = viol["input"]
+    if i.get("outside_documented_ranges"):
+        whatever_is_written_is_proper(ctx)
+        return
     if "argv" in i:
         boards.generator_environment(ctx, viol["clause"], [i["argv"]])
         return
